@@ -32,7 +32,32 @@ txt = b"".join(bytes([250]) + b"k%03d=" % i + b"v" * 245 for i in range(280))
 info = ServiceInfo(TA, "s1." + TA, 80, addresses=[socket.inet_aton("10.0.0.1")], server=server, properties=txt)
 print("server: %d bytes, longest label %d; TXT: %d bytes" % (len(server), max(len(l) for l in server.split(".")), len(info.text)))
 
-# the dry run: what `Zeroconf.generate_service_broadcast(info, None)` builds (`_add_broadcast_answer`), then `.packets()`
+# the dry run, through the library's own `async_update_service` (same lines as in `async_register_service`) on an instance without
+# sockets: `set_server_if_missing`, the dry-run encode, `registry.async_update`; the broadcast task is cancelled before it starts
+import asyncio
+import struct
+
+from zeroconf import Zeroconf
+from zeroconf._exceptions import NamePartTooLongException
+from zeroconf._services.registry import ServiceRegistry
+
+
+async def through_the_api():
+    zc = object.__new__(Zeroconf)
+    zc.registry = ServiceRegistry()
+    try:
+        task = await zc.async_update_service(info)
+    except (struct.error, NamePartTooLongException) as e:
+        return "refused: %s: %s" % (type(e).__name__, e)
+    task.cancel()
+    return "accepted" if info.key in zc.registry._services else "not registered"
+
+verdict = asyncio.run(through_the_api())
+print("async_update_service:", verdict)
+if verdict.startswith("refused"):
+    print("the dry run refuses the service: not reproduced (repaired tree)")
+    sys.exit(0)
+# what the dry run did: `generate_service_broadcast(info, None).packets()`
 out = DNSOutgoing(_FLAGS_QR_RESPONSE | _FLAGS_AA)
 out.add_answer_at_time(info.dns_pointer(), 0)
 out.add_answer_at_time(info.dns_service(), 0)
